@@ -1401,3 +1401,363 @@ Lemma ov_facts :
   map t_out (s_threads (run false w_cfg_in ov_sched)) = [Done; Done; Failed EBoundFull; Failed EBoundFull; Failed EBoundFull] /\
   recorded (run false w_cfg_in ov_sched) Inbound = 2 /\ live_count (run false w_cfg_in ov_sched) Inbound = 2.
 Proof. vm_compute; auto. Qed.
+
+(** * 10. the connecting set: at most one Connect per address between tryAddConnecting and
+      removeConnecting (the outbound record is written only after the handshake, so this set is
+      the only thing that keeps two simultaneous dials to one address apart) *)
+
+Definition is_defer (i : item) : bool := match i with IDefer _ => true | IOp _ => false end.
+
+(** shape of a program as far as the connecting mark is concerned (computed on the programs
+    extracted from the source): removeConnecting is deferred only AFTER tryAddConnecting has been
+    executed, at most once; tryAddConnecting occurs at most once and is not the last item; every
+    section after tryAddConnecting runs with the defer already registered; removeConnecting is
+    never called directly. *)
+Definition connecting_shape_ok (p : list item) : bool :=
+  Nat.ltb 0 (length p) &&
+  forallb (fun pc =>
+    match nth_error p pc with
+    | Some (IDefer _) => existsb (item_is OpTryConnecting) (firstn pc p) && negb (existsb is_defer (firstn pc p))
+    | Some (IOp o) =>
+        negb (op_eqb o OpRemoveConnecting)
+        && (if op_eqb o OpTryConnecting
+            then negb (existsb (item_is OpTryConnecting) (firstn pc p)) && Nat.ltb (S pc) (length p)
+            else implb (existsb (item_is OpTryConnecting) (firstn pc p)) (existsb is_defer (firstn pc p)))
+    | None => true
+    end) (seq 0 (length p)).
+
+Lemma prog_connecting_shape : forall d, connecting_shape_ok (prog_of d) = true.
+Proof. destruct d; vm_compute; reflexivity. Qed.
+
+Lemma shape_nonempty : forall d, (0 < length (prog_of d))%nat.
+Proof.
+  intros d; pose proof (prog_connecting_shape d) as H; unfold connecting_shape_ok in H.
+  apply andb_true_iff in H; destruct H as [H _]. apply Nat.ltb_lt in H; exact H.
+Qed.
+
+Lemma shape_at : forall d pc x, nth_error (prog_of d) pc = Some x ->
+  match x with
+  | IDefer _ => existsb (item_is OpTryConnecting) (firstn pc (prog_of d)) = true
+                /\ existsb is_defer (firstn pc (prog_of d)) = false
+  | IOp o => o <> OpRemoveConnecting /\
+             (o = OpTryConnecting -> existsb (item_is OpTryConnecting) (firstn pc (prog_of d)) = false
+                                     /\ (S pc < length (prog_of d))%nat) /\
+             (o <> OpTryConnecting -> existsb (item_is OpTryConnecting) (firstn pc (prog_of d)) = true ->
+                                      existsb is_defer (firstn pc (prog_of d)) = true)
+  end.
+Proof.
+  intros d pc x Hn. pose proof (prog_connecting_shape d) as H; unfold connecting_shape_ok in H.
+  apply andb_true_iff in H; destruct H as [_ H]. rewrite forallb_forall in H.
+  assert (Hin : In pc (seq 0 (length (prog_of d)))).
+  { apply in_seq; split; [lia|]. cbn. apply nth_error_Some; congruence. }
+  specialize (H pc Hin); rewrite Hn in H. destruct x as [o|o].
+  - apply andb_true_iff in H; destruct H as [H1 H2]. split.
+    + intros ->; rewrite op_eqb_refl in H1; discriminate.
+    + split.
+      * intros ->; rewrite op_eqb_refl in H2. apply andb_true_iff in H2; destruct H2 as [A B].
+        apply negb_true_iff in A. apply Nat.ltb_lt in B. auto.
+      * intros Hne Ht. destruct (op_eqb o OpTryConnecting) eqn:E; [apply op_eqb_eq in E; contradiction|].
+        rewrite Ht in H2; cbn in H2; exact H2.
+  - apply andb_true_iff in H; destruct H as [H1 H2]. apply negb_true_iff in H2; auto.
+Qed.
+
+Lemma nth_error_firstn_lt : forall A (l : list A) k n, (n < k)%nat -> nth_error (firstn k l) n = nth_error l n.
+Proof.
+  induction l; intros [|k] [|n] H; cbn; auto; try lia. apply IHl; lia.
+Qed.
+
+(** a defer registered before position pc means tryAddConnecting was executed before pc *)
+Lemma defer_implies_try : forall d pc, existsb is_defer (firstn pc (prog_of d)) = true ->
+  existsb (item_is OpTryConnecting) (firstn pc (prog_of d)) = true.
+Proof.
+  intros d pc HX. apply existsb_exists in HX; destruct HX as [x [Hx Dx]]. destruct x as [ox|ox]; [discriminate|].
+  apply In_nth_error in Hx; destruct Hx as [n Hn].
+  assert (Hlt : (n < pc)%nat).
+  { assert (HY : (n < length (firstn pc (prog_of d)))%nat) by (apply nth_error_Some; congruence).
+    rewrite firstn_length in HY; lia. }
+  rewrite nth_error_firstn_lt in Hn by exact Hlt.
+  pose proof (shape_at _ _ _ Hn) as [A _]. cbn beta iota in A.
+  apply existsb_exists in A; destruct A as [y [Hy Ty]].
+  apply existsb_exists; exists y; split; auto.
+  rewrite <- (firstn_skipn n (firstn pc (prog_of d))).
+  rewrite firstn_firstn. replace (Nat.min n pc) with n by lia. apply in_or_app; left; exact Hy.
+Qed.
+
+Lemma op_eqb_sym_false : forall a b, op_eqb a b = false -> op_eqb b a = false.
+Proof. destruct a, b; cbn; auto. Qed.
+
+Lemma c_connecting_save_peer : forall c d a pid lp, c_connecting (fst (save_peer c d a pid lp)) = c_connecting c.
+Proof. intros; unfold save_peer; destruct d; reflexivity. Qed.
+
+Lemma c_connecting_remove_peer : forall c k, c_connecting (remove_peer c k) = c_connecting c.
+Proof.
+  intros; unfold remove_peer.
+  destruct (k_dir k); cbn;
+    match goal with |- context [peers_get ?p ?i] => destruct (peers_get p i) as [[cid ?]|] end;
+    try destruct (cid =? k_cid k); reflexivity.
+Qed.
+
+Lemma exec_op_try : forall rc cf c t c' e k, exec_op rc cf c t OpTryConnecting = (c', e, k) ->
+  k = None /\
+  ((amem (t_addr t) (c_connecting c) = true /\ c' = c /\ e = Some EConnecting) \/
+   (amem (t_addr t) (c_connecting c) = false /\ c_connecting c' = t_addr t :: c_connecting c /\ e = None)).
+Proof.
+  intros rc cf c t c' e k H; cbn [exec_op] in H.
+  destruct (amem (t_addr t) (c_connecting c)) eqn:E; inversion H; subst; split; auto.
+Qed.
+
+Lemma exec_op_remove : forall rc cf c t c' e k, exec_op rc cf c t OpRemoveConnecting = (c', e, k) ->
+  c_connecting c' = aset_remove (t_addr t) (c_connecting c).
+Proof. intros rc cf c t c' e k H; cbn [exec_op] in H; inversion H; subst; reflexivity. Qed.
+
+Lemma exec_op_conn_other : forall rc cf c t o c' e k, exec_op rc cf c t o = (c', e, k) ->
+  o <> OpTryConnecting -> o <> OpRemoveConnecting -> c_connecting c' = c_connecting c.
+Proof.
+  intros rc cf c t o c' e k H N1 N2; destruct o; try congruence; cbn [exec_op] in H;
+    try (inversion H; subst; reflexivity).
+  - destruct (t_pid t =? self_id cf); inversion H; subst; reflexivity.
+  - destruct (rc && _).
+    + inversion H; subst; reflexivity.
+    + destruct (save_peer c (t_dir t) (t_addr t) (t_pid t) (t_lport t)) as [c1 k1] eqn:S.
+      inversion H; subst. change c' with (fst (c', k1)). rewrite <- S. apply c_connecting_save_peer.
+Qed.
+
+(** the attempt holds the mark of its address *)
+Definition holds (t : thread) : bool :=
+  match t_out t with
+  | Pending => existsb (item_is OpTryConnecting) (firstn (t_pc t) (prog_of (t_dir t)))
+  | _ => match t_defer t with [] => false | _ => true end
+  end.
+
+Definition thread_wf (t : thread) : Prop :=
+  defer_wf t /\ (length (t_defer t) <= 1)%nat /\
+  (t_out t = Pending -> (t_pc t < length (prog_of (t_dir t)))%nat /\
+     existsb is_defer (firstn (t_pc t) (prog_of (t_dir t))) = match t_defer t with [] => false | _ => true end).
+
+Definition kinv (s : sys) : Prop :=
+  NoDup (c_connecting (s_ctrl s)) /\
+  (forall a, In a (c_connecting (s_ctrl s)) <->
+             exists i t, nth_error (s_threads s) i = Some t /\ holds t = true /\ t_addr t = a) /\
+  (forall i j ti tj, nth_error (s_threads s) i = Some ti -> nth_error (s_threads s) j = Some tj ->
+                     holds ti = true -> holds tj = true -> t_addr ti = t_addr tj -> i = j) /\
+  Forall thread_wf (s_threads s).
+
+Lemma next_out_pending : forall t, next_out t = Pending -> (S (t_pc t) < length (prog_of (t_dir t)))%nat.
+Proof.
+  intros t H; unfold next_out in H. destruct (Nat.leb _ _) eqn:E; [discriminate|]. apply Nat.leb_gt in E; exact E.
+Qed.
+
+Lemma next_out_cases : forall t, next_out t = Pending \/ next_out t = Done.
+Proof. intros t; unfold next_out; destruct (Nat.leb _ _); auto. Qed.
+
+(** what one step of thread t does to (connecting, holds t, wf) *)
+Lemma kstep_thread : forall rc cf c t c' t' k, thread_wf t -> run_thread rc cf c t = (c', t', k) ->
+  thread_wf t' /\ t_addr t' = t_addr t /\
+  (   (c_connecting c' = c_connecting c /\ holds t' = holds t)
+   \/ (holds t = false /\ holds t' = true /\ amem (t_addr t) (c_connecting c) = false
+       /\ c_connecting c' = t_addr t :: c_connecting c)
+   \/ (holds t = true /\ holds t' = false /\ c_connecting c' = aset_remove (t_addr t) (c_connecting c))).
+Proof.
+  intros rc cf c t c' t' k (HD & HL & HP) Hr. apply run_thread_tstep in Hr. inversion Hr; subst; clear Hr.
+  - (* idle *) split; [split; auto|]. split; auto.
+  - (* end: excluded by wf *) destruct (HP H) as [Hlt _]. apply nth_error_None in H0. lia.
+  - (* defer registration *)
+    destruct (HP H) as [Hlt Hd]. pose proof (shape_at _ _ _ H0) as [St Sd]. cbn beta iota in *.
+    assert (Ho : o = OpRemoveConnecting) by (eapply deferred_is_remove; eauto).
+    rewrite Sd in Hd. destruct (t_defer t) eqn:Edf; [|discriminate].
+    split; [|split; [reflexivity|]].
+    + split; [unfold defer_wf; cbn [t_defer set_thread]; constructor; auto|].
+      split; [cbn [t_defer set_thread length]; lia|].
+      cbn [t_out t_pc t_dir t_defer set_thread]. intros Hn. split; [apply next_out_pending; auto|].
+      erewrite existsb_firstn_S by eauto. cbn. apply orb_true_r.
+    + left; split; auto. unfold holds at 1; cbn [t_out t_pc t_dir t_defer set_thread].
+      unfold holds; rewrite H, St. destruct (next_out_cases t) as [E|E]; rewrite E.
+      * erewrite existsb_firstn_S by eauto. rewrite St; reflexivity.
+      * reflexivity.
+  - (* a section *)
+    destruct (HP H) as [Hlt Hd]. pose proof (shape_at _ _ _ H0) as [Snr [Stry Soth]].
+    set (o' := match e with Some e0 => Failed e0 | None => next_out t end).
+    assert (Hwf' : thread_wf (set_thread t (S (t_pc t)) (t_defer t) o')).
+    { split; [exact HD|]. split; [exact HL|]. cbn [t_out t_pc t_dir t_defer set_thread]. intros Hn.
+      assert (e = None) by (subst o'; destruct e; [discriminate|reflexivity]). subst e. subst o'.
+      split; [apply next_out_pending; auto|].
+      erewrite existsb_firstn_S by eauto. cbn [is_defer]. rewrite orb_false_r. exact Hd. }
+    split; [exact Hwf'|]. split; [reflexivity|].
+    destruct (op_eqb o OpTryConnecting) eqn:Eo.
+    + apply op_eqb_eq in Eo; subst o. destruct (Stry eq_refl) as [Snot Slen].
+      assert (Hh : holds t = false) by (unfold holds; rewrite H; exact Snot).
+      apply exec_op_try in H1; destruct H1 as [-> [[Hm [-> ->]]|[Hm [Hc ->]]]].
+      * (* refused: nothing changes, and no defer is pending *)
+        left; split; auto. rewrite Hh. unfold holds; cbn [t_out t_defer set_thread].
+        destruct (t_defer t) eqn:Edf; auto.
+        (* a registered defer would mean tryAddConnecting had been executed *)
+        assert (HX : existsb is_defer (firstn (t_pc t) (prog_of (t_dir t))) = true) by (rewrite Hd; reflexivity).
+        apply defer_implies_try in HX. congruence.
+      * right; left. split; auto. split; [|split; auto].
+        subst o'. unfold holds; cbn [t_out t_pc t_dir t_defer set_thread].
+        assert (En : next_out t = Pending).
+        { unfold next_out. destruct (Nat.leb _ _) eqn:E; auto. apply Nat.leb_le in E; lia. }
+        rewrite En. erewrite existsb_firstn_S by eauto. cbn. apply orb_true_r.
+    + assert (Hne : o <> OpTryConnecting) by (intros ->; rewrite op_eqb_refl in Eo; discriminate).
+      left. split; [eapply exec_op_conn_other; eauto|].
+      unfold holds at 1; cbn [t_out t_pc t_dir t_defer set_thread]. unfold holds; rewrite H.
+      assert (Hsame : existsb (item_is OpTryConnecting) (firstn (S (t_pc t)) (prog_of (t_dir t)))
+                      = existsb (item_is OpTryConnecting) (firstn (t_pc t) (prog_of (t_dir t)))).
+      { erewrite existsb_firstn_S by eauto. cbn [item_is]. rewrite op_eqb_sym_false; [apply orb_false_r|exact Eo]. }
+      assert (Hnp : forall oo, oo <> Pending ->
+                match oo with Pending => existsb (item_is OpTryConnecting) (firstn (S (t_pc t)) (prog_of (t_dir t)))
+                            | _ => match t_defer t with [] => false | _ => true end end
+                = existsb (item_is OpTryConnecting) (firstn (t_pc t) (prog_of (t_dir t)))).
+      { intros oo Hoo.
+        assert (G : match t_defer t with [] => false | _ => true end
+                    = existsb (item_is OpTryConnecting) (firstn (t_pc t) (prog_of (t_dir t)))).
+        { rewrite <- Hd. destruct (existsb (item_is OpTryConnecting) (firstn (t_pc t) (prog_of (t_dir t)))) eqn:ET.
+          - apply (Soth Hne); reflexivity.
+          - destruct (existsb is_defer (firstn (t_pc t) (prog_of (t_dir t)))) eqn:ED; auto.
+            apply defer_implies_try in ED. congruence. }
+        destruct oo; [congruence|exact G|exact G]. }
+      subst o'. destruct e as [e0|].
+      * exact (Hnp (Failed e0) ltac:(discriminate)).
+      * destruct (next_out_cases t) as [E|E]; rewrite E; [exact Hsame | exact (Hnp Done ltac:(discriminate))].
+  - (* a deferred call *)
+    assert (Ho : o = OpRemoveConnecting) by (unfold defer_wf in HD; rewrite H0 in HD; inversion HD; auto).
+    subst o. assert (r = []) by (rewrite H0 in HL; cbn in HL; destruct r; [auto|cbn in HL; lia]). subst r.
+    split; [|split; [reflexivity|]].
+    + split; [unfold defer_wf; cbn; constructor|]. split; [cbn; lia|].
+      cbn [t_out set_thread]. intros; contradiction.
+    + right; right. split; [unfold holds; destruct (t_out t); [contradiction| |]; rewrite H0; reflexivity|].
+      split; [unfold holds; cbn [t_out t_defer set_thread]; destruct (t_out t); [contradiction| |]; reflexivity|].
+      eapply exec_op_remove; eauto.
+Qed.
+
+Lemma kinv_init : kinv sys_init.
+Proof.
+  unfold kinv; cbn. split; [constructor|]. split.
+  - intros a; split; [intros []|intros [i [t [H _]]]; destruct i; discriminate].
+  - split; [intros i j ti tj H; destruct i; discriminate|constructor].
+Qed.
+
+Lemma kinv_step : forall rc cf s e, kinv s -> kinv (step rc cf s e).
+Proof.
+  intros rc cf s e (HN & HK & HU & HW). destruct e as [d a pid lp r dl hs | i | i].
+  - (* Spawn *)
+    cbn [step]; unfold kinv; cbn [s_ctrl s_threads].
+    set (nt := new_thread d a pid lp r dl hs).
+    assert (Hnh : holds nt = false) by reflexivity.
+    split; [exact HN|]. split; [|split].
+    + intros x; rewrite HK; split.
+      * intros [j [t [Hj Ht]]]; exists j, t; split; auto. rewrite nth_error_app1; auto.
+        apply nth_error_Some; congruence.
+      * intros [j [t [Hj [Hh Ha]]]]. apply nth_error_app_one in Hj; destruct Hj as [Hj|[_ ->]]; [eauto|congruence].
+    + intros j1 j2 t1 t2 H1 H2 Hh1 Hh2 Ha.
+      apply nth_error_app_one in H1; destruct H1 as [H1|[_ ->]]; [|congruence].
+      apply nth_error_app_one in H2; destruct H2 as [H2|[_ ->]]; [|congruence]. eauto.
+    + apply Forall_app; split; auto. constructor; [|constructor].
+      unfold thread_wf, defer_wf; cbn. split; [constructor|]. split; [lia|]. intros _.
+      split; [apply shape_nonempty|reflexivity].
+  - (* Run *)
+    unfold step. destruct (nth_error (s_threads s) i) as [t|] eqn:Ht; [|repeat split; auto; apply HK].
+    destruct (run_thread rc cf (s_ctrl s) t) as [[c' t'] k0] eqn:Hr.
+    assert (Hwt : thread_wf t) by (rewrite Forall_forall in HW; apply HW; eapply nth_error_In; eauto).
+    destruct (kstep_thread rc cf _ _ _ _ _ Hwt Hr) as [Hwt' [Hat Hcase]].
+    unfold kinv; cbn [s_ctrl s_threads].
+    (* holders other than i are the same before and after *)
+    assert (Hold : forall j x, j <> i -> nth_error (upd (s_threads s) i t') j = Some x <-> nth_error (s_threads s) j = Some x).
+    { intros j x Hne; rewrite upd_nth_other by auto; reflexivity. }
+    assert (Hnew : nth_error (upd (s_threads s) i t') i = Some t') by (eapply upd_nth_same; eauto).
+    assert (Hsplit : forall j x, nth_error (upd (s_threads s) i t') j = Some x ->
+                       (j = i /\ x = t') \/ (j <> i /\ nth_error (s_threads s) j = Some x)).
+    { intros j x Hj; eapply nth_error_upd; eauto. }
+    destruct Hcase as [[Hc Hh]|[[Hh [Hh' [Hm Hc]]]|[Hh [Hh' Hc]]]]; rewrite Hc.
+    + (* the mark is untouched *)
+      split; [exact HN|]. split; [|split; [|apply Forall_upd; auto]].
+      * intros x; rewrite HK; split.
+        -- intros [j [tj [Hj [Hhj Haj]]]]. destruct (Nat.eq_dec j i) as [->|Ne].
+           ++ rewrite Ht in Hj; inversion Hj; subst tj. exists i, t'; rewrite Hh, Hat; auto.
+           ++ exists j, tj; split; [apply Hold; auto|auto].
+        -- intros [j [tj [Hj [Hhj Haj]]]]. apply Hsplit in Hj; destruct Hj as [[-> ->]|[Ne Hj]].
+           ++ exists i, t; rewrite <- Hh, <- Hat; auto.
+           ++ eauto.
+      * intros j1 j2 t1 t2 H1 H2 Hh1 Hh2 Ha.
+        assert (G : forall j x, nth_error (upd (s_threads s) i t') j = Some x -> holds x = true ->
+                      exists y, nth_error (s_threads s) j = Some y /\ holds y = true /\ t_addr y = t_addr x).
+        { intros j x Hj Hx. apply Hsplit in Hj; destruct Hj as [[-> ->]|[Ne Hj]].
+          - exists t; rewrite <- Hh, <- Hat; auto.
+          - exists x; auto. }
+        destruct (G _ _ H1 Hh1) as [y1 [A1 [B1 C1]]]. destruct (G _ _ H2 Hh2) as [y2 [A2 [B2 C2]]].
+        apply (HU j1 j2 y1 y2); auto; congruence.
+    + (* the attempt takes the mark of its address: it was free *)
+      apply amem_false in Hm.
+      split; [constructor; auto|]. split; [|split; [|apply Forall_upd; auto]].
+      * intros x; cbn [In]; split.
+        -- intros [<-|Hin]; [exists i, t'; auto|].
+           apply HK in Hin; destruct Hin as [j [tj [Hj [Hhj Haj]]]].
+           assert (Ne : j <> i) by (intros ->; rewrite Ht in Hj; inversion Hj; subst; congruence).
+           exists j, tj; split; [apply Hold; auto|auto].
+        -- intros [j [tj [Hj [Hhj Haj]]]]. apply Hsplit in Hj; destruct Hj as [[-> ->]|[Ne Hj]].
+           ++ left; congruence.
+           ++ right; apply HK; eauto.
+      * intros j1 j2 t1 t2 H1 H2 Hh1 Hh2 Ha.
+        apply Hsplit in H1; destruct H1 as [[-> ->]|[N1 H1]]; apply Hsplit in H2; destruct H2 as [[-> ->]|[N2 H2]]; auto.
+        -- exfalso; apply Hm; apply HK. exists j2, t2; repeat split; auto; congruence.
+        -- exfalso; apply Hm; apply HK. exists j1, t1; repeat split; auto; congruence.
+        -- eauto.
+    + (* the attempt gives its mark back *)
+      split; [apply aset_remove_NoDup; auto|]. split; [|split; [|apply Forall_upd; auto]].
+      * intros x; rewrite aset_remove_In, HK; split.
+        -- intros [[j [tj [Hj [Hhj Haj]]]] Hne].
+           assert (Ne : j <> i) by (intros ->; rewrite Ht in Hj; inversion Hj; subst; congruence).
+           exists j, tj; split; [apply Hold; auto|auto].
+        -- intros [j [tj [Hj [Hhj Haj]]]]. apply Hsplit in Hj; destruct Hj as [[-> ->]|[Ne Hj]]; [congruence|].
+           split; [eauto|]. intros ->. apply Ne. apply (HU j i tj t); auto.
+      * intros j1 j2 t1 t2 H1 H2 Hh1 Hh2 Ha.
+        apply Hsplit in H1; destruct H1 as [[-> ->]|[N1 H1]]; [congruence|].
+        apply Hsplit in H2; destruct H2 as [[-> ->]|[N2 H2]]; [congruence|]. eauto.
+  - (* Close *)
+    unfold step. destruct (nth_error (s_live s) i) as [k0|]; [|repeat split; auto; apply HK].
+    unfold kinv; cbn [s_ctrl s_threads]. rewrite c_connecting_remove_peer. repeat split; auto; apply HK.
+Qed.
+
+Theorem kinv_reachable : forall rc cf sched, kinv (run rc cf sched).
+Proof.
+  intros rc cf sched; unfold run.
+  assert (G : forall l s, kinv s -> kinv (fold_left (step rc cf) l s)).
+  { induction l; intros s H; cbn; auto using kinv_step. }
+  apply G, kinv_init.
+Qed.
+
+(** a Connect refused by tryAddConnecting changes nothing and has nothing left to run *)
+Theorem refused_connect_changes_nothing : forall rc cf sched i t,
+  let s := run rc cf sched in
+  nth_error (s_threads s) i = Some t -> t_out t = Pending ->
+  nth_error (prog_of (t_dir t)) (t_pc t) = Some (IOp OpTryConnecting) ->
+  amem (t_addr t) (c_connecting (s_ctrl s)) = true ->
+  exists t', nth_error (s_threads (step rc cf s (Run i))) i = Some t' /\ t_out t' = Failed EConnecting
+             /\ t_defer t' = [] /\ finished t' = true
+             /\ s_ctrl (step rc cf s (Run i)) = s_ctrl s /\ s_live (step rc cf s (Run i)) = s_live s.
+Proof.
+  intros rc cf sched i t s Hi Ho Hn Hm.
+  assert (Hx : exec_op rc cf (s_ctrl s) t OpTryConnecting = (s_ctrl s, Some EConnecting, None))
+    by (cbn [exec_op]; rewrite Hm; reflexivity).
+  destruct (refused_step rc cf s i t _ _ Hi Ho Hn Hx) as [t' [H1 [H2 [H3 H4]]]].
+  exists t'; repeat split; auto.
+  - (* no defer registered: the thread does not hold a mark *)
+    destruct (kinv_reachable rc cf sched) as (_ & _ & _ & HW). fold s in HW.
+    assert (Hwt : thread_wf t) by (rewrite Forall_forall in HW; apply HW; eapply nth_error_In; eauto).
+    destruct Hwt as (_ & _ & HP). destruct (HP Ho) as [_ Hd].
+    pose proof (shape_at _ _ _ Hn) as [_ [St _]]. destruct (St eq_refl) as [Snot _].
+    unfold step in H1. rewrite Hi in H1. unfold run_thread in H1. rewrite Ho, Hn, Hx in H1. cbn [s_threads] in H1.
+    erewrite upd_nth_same in H1 by eauto. inversion H1; subst t'. cbn [t_defer set_thread].
+    destruct (t_defer t); auto.
+    assert (HX : existsb is_defer (firstn (t_pc t) (prog_of (t_dir t))) = true) by (rewrite Hd; reflexivity).
+    apply defer_implies_try in HX. congruence.
+  - unfold step in H1. rewrite Hi in H1. unfold run_thread in H1. rewrite Ho, Hn, Hx in H1. cbn [s_threads] in H1.
+    erewrite upd_nth_same in H1 by eauto. inversion H1; subst t'. unfold finished; cbn [t_out t_defer set_thread].
+    destruct (kinv_reachable rc cf sched) as (_ & _ & _ & HW). fold s in HW.
+    assert (Hwt : thread_wf t) by (rewrite Forall_forall in HW; apply HW; eapply nth_error_In; eauto).
+    destruct Hwt as (_ & _ & HP). destruct (HP Ho) as [_ Hd].
+    pose proof (shape_at _ _ _ Hn) as [_ [St _]]. destruct (St eq_refl) as [Snot _].
+    destruct (t_defer t); auto.
+    assert (HX : existsb is_defer (firstn (t_pc t) (prog_of (t_dir t))) = true) by (rewrite Hd; reflexivity).
+    apply defer_implies_try in HX. congruence.
+Qed.
